@@ -391,3 +391,74 @@ func c19ConnectionFaults(c *Ctx, done chan<- struct{}) {
 		probes(2, "stalled clients went away")
 	}
 }
+
+// c19WideText: text made of n copies of a 1-, 2-, 3- or 4-byte character with n at and around the sizes at which
+// byte counts and character counts part company (64, 86, 128, 256, 342, 512, 1024, ...): as an unknown path, below a
+// known path, below /docs, in a query string, and in every string field of the JSON bodies. Anything that cuts,
+// pads or echoes request text by the wrong measure shows here; judged as every hostile request is.
+func c19WideText(c *Ctx, srv *server) *server {
+	r := c.R
+	chars := []string{"a", "\u00e9", "\u65e5", "\U0001F600"}
+	lens := []int{1, 63, 64, 65, 85, 86, 100, 127, 128, 129, 170, 171, 200, 255, 256, 257, 300, 341, 342, 511, 512, 513, 1000, 1024, 1366, 2000}
+	esc := func(s string) string {
+		var b strings.Builder
+		for i := 0; i < len(s); i++ {
+			if s[i] < 0x80 {
+				b.WriteByte(s[i])
+			} else {
+				fmt.Fprintf(&b, "%%%02X", s[i])
+			}
+		}
+		return b.String()
+	}
+	sec := "GEZDGNBVGY3TQOJQGEZDGNBVGY3TQOJQ"
+	restart := func() bool {
+		srv.stop()
+		ns, err := startServer(c, "VERIF_SERVER_BIN")
+		if err != nil {
+			r.Inconclusive("server could not be restarted: " + err.Error())
+			return false
+		}
+		ns.client.CheckRedirect = srv.client.CheckRedirect
+		srv = ns
+		r.Count("server_restarts", 1)
+		return true
+	}
+	for _, ch := range chars {
+		for _, n := range lens {
+			t := strings.Repeat(ch, n)
+			e := esc(t)
+			reqs := []hostileReq{
+				{Method: "GET", Path: "/" + e, Note: "wide text as an unknown path"},
+				{Method: "POST", Path: "/x/" + e, Body: hs("{}"), Note: "wide text as an unknown path"},
+				{Method: "GET", Path: "/totp/generate/" + e, Note: "wide text below a known path"},
+				{Method: "GET", Path: "/docs/" + e, Note: "wide text below /docs"},
+				{Method: "GET", Path: "/otp/secret?algorithm=" + e, Note: "wide text in a query string"},
+				{Method: "GET", Path: "/otp/secret?" + e + "=1", Note: "wide text as a query key"},
+			}
+			for _, f := range []string{"secret", "algorithm", "digits", "raw_suite", "code"} {
+				m := map[string]any{"secret": sec, "counter": 1, "code": "123456", "raw_suite": "OCRA-1:HOTP-SHA1-6:QN08", "input": map[string]any{"challenge_hex": "3132333435363738"}}
+				m[f] = t
+				ep := "/hotp/validate"
+				if f == "raw_suite" {
+					ep = "/ocra/generate"
+				}
+				reqs = append(reqs, hostileReq{Method: "POST", Path: ep, Body: hs(string(jsonBody(m))), Note: "wide text in field " + f})
+			}
+			for _, f := range []string{"issuer", "account_name", "type"} {
+				m := map[string]any{"secret": sec, "type": "totp", "issuer": "I", "account_name": "a"}
+				m[f] = t
+				reqs = append(reqs, hostileReq{Method: "POST", Path: "/otp/url", Body: hs(string(jsonBody(m))), Note: "wide text in field " + f})
+			}
+			for _, k := range reqs {
+				r.Count("wide_text_requests", 1)
+				if judgeHostile(c, srv, k, true) {
+					if !restart() {
+						return nil
+					}
+				}
+			}
+		}
+	}
+	return srv
+}
